@@ -247,7 +247,7 @@ void harness(void)
 			     C19_OB("fresh"));
 		VERIF_ASSERT(dst.ht != NULL && dst.ht != oht &&
 			     dst.ht->table != NULL &&
-			     !VERIF_SAME_OBJECT(dst.ht->table, otab) &&
+			     C19_DISTINCT(dst.ht->table, otab) &&
 			     dst.ht->size == HT_SIZE && dst.ht->entries == N &&
 			     dst.ht->key_equals_function == eq_stub &&
 			     dst.ht->deleted_key == oht->deleted_key &&
@@ -256,7 +256,7 @@ void harness(void)
 			     dst.ht->rehash_magic == oht->rehash_magic,
 			     C19_OB("fresh"));
 		if (N > 0)
-			VERIF_ASSERT(carr != NULL && !VERIF_SAME_OBJECT(carr, oarr),
+			VERIF_ASSERT(carr != NULL && C19_DISTINCT(carr, oarr),
 				     C19_OB("fresh"));
 		for (i = 0; i < HT_SIZE; ++i) {
 			if (N > 0 && i == SLOT0)
@@ -273,7 +273,7 @@ void harness(void)
 			VERIF_ASSERT(cb != NULL && VERIF_RW_OK(cb, sizeof(bucket_wrap_t)),
 				     C19_OB("fresh"));
 			for (j = 0; j < N; ++j)
-				VERIF_ASSERT(!VERIF_SAME_OBJECT(cb, ob[j]), C19_OB("fresh"));
+				VERIF_ASSERT(C19_DISTINCT(cb, ob[j]), C19_OB("fresh"));
 			VERIF_ASSERT(e->data == cb && e->key == cb->string &&
 				     e->hash == ohash[i], C19_OB("fresh"));
 			VERIF_ASSERT(cb->index == (size_t)i && cb->refcount == orc[i] &&
